@@ -43,6 +43,77 @@ Proof.
   rewrite notin_remove; auto.
 Qed.
 
+Lemma nodup_remove a l : NoDup l -> NoDup (remove Nat.eq_dec a l).
+Proof.
+  induction l as [|b l IH]; simpl; intros ND; [constructor|]. inversion ND; subst.
+  destruct (Nat.eq_dec a b); auto. constructor; auto. rewrite in_remove_iff. tauto.
+Qed.
+
+(* two duplicate-free lists with the same elements pass the executable permutation test *)
+Lemma is_perm_complete l1 : forall l2, NoDup l1 -> NoDup l2 -> (forall x, In x l1 <-> In x l2) -> is_perm l1 l2 = true.
+Proof.
+  induction l1 as [|a r IH]; intros l2 N1 N2 H; simpl.
+  - destruct l2 as [|b l2]; auto. exfalso. apply (proj2 (H b)). left; reflexivity.
+  - inversion N1; subst. apply andb_true_iff. split.
+    + apply existsb_eqb_In. apply H. left; reflexivity.
+    + apply IH; auto.
+      * apply nodup_remove; auto.
+      * intros x. rewrite in_remove_iff. split.
+        -- intros Hx. split; [apply H; right; exact Hx|]. intros ->. contradiction.
+        -- intros [Hx Hne]. apply H in Hx. destruct Hx as [->|Hx]; [congruence|exact Hx].
+Qed.
+
+(* file edges first, then parameter edges: the order in which createTasks reads the ports *)
+Definition fsort (c : cfg) (l : list nat) : list nat := filter (fun e => negb (epar c e)) l ++ filter (epar c) l.
+
+Lemma par_sorted_all_par c l : forallb (epar c) l = true -> par_sorted c l = true.
+Proof.
+  induction l as [|a r IH]; simpl; auto. intros H. apply andb_true_iff in H. destruct H as [Ha Hr].
+  rewrite Ha, Hr. simpl. auto.
+Qed.
+
+Lemma par_sorted_app_files c l1 l2 :
+  (forall x, In x l1 -> epar c x = false) -> par_sorted c l2 = true -> par_sorted c (l1 ++ l2) = true.
+Proof.
+  induction l1 as [|a r IH]; simpl; intros H1 H2; auto.
+  rewrite (H1 a) by (left; reflexivity). simpl. apply IH; auto.
+Qed.
+
+Lemma par_sorted_fsort c l : par_sorted c (fsort c l) = true.
+Proof.
+  unfold fsort. apply par_sorted_app_files.
+  - intros x Hx. apply filter_In in Hx. destruct Hx as [_ Hn]. now apply negb_true_iff in Hn.
+  - apply par_sorted_all_par. apply forallb_forall. intros x Hx. apply filter_In in Hx. tauto.
+Qed.
+
+Lemma in_fsort c l x : In x (fsort c l) <-> In x l.
+Proof.
+  unfold fsort. rewrite in_app_iff, !filter_In. destruct (epar c x); simpl; intuition congruence.
+Qed.
+
+Lemma nodup_app_disj (l1 l2 : list nat) :
+  NoDup l1 -> NoDup l2 -> (forall x, In x l1 -> ~ In x l2) -> NoDup (l1 ++ l2).
+Proof.
+  induction l1 as [|a m IH]; simpl; intros A B D; auto.
+  inversion A; subst. constructor.
+  - rewrite in_app_iff. intros [H|H]; [contradiction|]. apply (D a); [left; reflexivity|exact H].
+  - apply IH; auto.
+Qed.
+
+Lemma nodup_fsort c l : NoDup l -> NoDup (fsort c l).
+Proof.
+  intros ND. unfold fsort. apply nodup_app_disj.
+  - apply NoDup_filter; exact ND.
+  - apply NoDup_filter; exact ND.
+  - intros x H1 H2. apply filter_In in H1. apply filter_In in H2. destruct H1 as [_ H1]. destruct H2 as [_ H2].
+    rewrite H2 in H1. discriminate.
+Qed.
+
+Lemma is_perm_fsort c l : NoDup l -> is_perm (fsort c l) l = true.
+Proof.
+  intros ND. apply is_perm_complete; auto. - apply nodup_fsort; auto. - intros x. apply in_fsort.
+Qed.
+
 Section Net.
 Variable c : cfg.
 Variable len : nat -> nat.
